@@ -19,6 +19,13 @@ open Tup
 
 /-! ## meaning (Prop level) -/
 
+/-- The invariant of every database the library produces: per table unique keys, every row of table
+    `s` is an id of space `s` (in particular non-zero and below 2^32), unique upload keys. -/
+structure DbInv (db : Db) : Prop where
+  keys : ∀ s ∈ Space.all, (db.ids s).KeysNodup
+  space : ∀ s ∈ Space.all, ∀ r ∈ db.ids s, Spec.inSpace s r.id = true
+  ukeys : UKeysNodup db.uploads
+
 /-- the live assignments of `(s, u)`: rows of the space's table whose id is a member -/
 def Live (db : Db) (s : Space) (u : Sub) (r : Row) : Prop := r ∈ db.ids s ∧ Spec.member s u r.id = true
 
@@ -63,6 +70,7 @@ def LruStep (db db' : Db) (s : Space) (u : Sub) (d : String) (now id : Nat) (vic
     live one, exactly `count - max` (truncated) are removed, everything else is untouched -/
 def CleanupStep (db db' : Db) (s : Space) (u : Sub) (maxIds : Nat) (removed : List Nat) : Prop :=
   removed.Nodup ∧
+  removed.length = ((db.ids s).filter (fun r => Spec.member s u r.id)).length - maxIds ∧
   (∀ id ∈ removed, ∃ r, Live db s u r ∧ r.id = id) ∧
   (∀ r k, Live db s u r → r.id ∈ removed → Live db s u k → k.id ∉ removed → r.atime ≤ k.atime) ∧
   (∀ id ∈ removed, (db'.ids s).lookup id = none) ∧
